@@ -68,6 +68,10 @@ func (g *inputGen) session(sess, nItems int, v1ok bool) ([]byte, []uint64) {
 			w[hdr+1+g.r.Intn(7)] ^= 0x40 // payload byte: extent unchanged
 			out = append(out, w...)
 		case k == 1 && g.keyRaw != nil: // complete frame with a wrong signature
+			if g.r.Chance(1, 2) {
+				// ... dated far ahead of the genuine traffic: a rejected frame must leave nothing behind (replay window included)
+				w = uidFrame(uid, byte(i), byte(1+g.trIdx), false, g.keyRaw, g.ts+2000000+uint64(g.r.Intn(1<<30)))
+			}
 			w = append([]byte(nil), w...)
 			w[len(w)-1-g.r.Intn(6)] ^= 0x01
 			out = append(out, w...)
